@@ -68,7 +68,8 @@ SEQ = {
                            'f9_unknown_provider_new_consumer'],
                 quick=(36, 45), thorough=(900, 60)),
     'C19': dict(models=['MC_names'], weights=W_NAMES,
-                scenarios=['names_lifecycle', 'drop_class_in_use'],
+                scenarios=['names_lifecycle', 'drop_class_in_use', 'sync_histories', 'sync_histories',
+                           'sync_histories'],
                 quick=(36, 45), thorough=(600, 60)),
 }
 
